@@ -455,7 +455,7 @@ func cmdCheck(args []string) int {
 			return 2
 		}
 		for _, cv := range res.ex.crossVal {
-			result, out := replayNative(bin, res.spec, res.spec.Name, cv.vector, res.params, res.spec.ReplayTimeout)
+			result, out := replayNative(bin, res.spec, res.spec.Name, cv.vector, mergeParams(res.params, map[string]int{"ITERS": 4}), res.spec.ReplayTimeout)
 			nativeObs := extractObs(out)
 			okEnd := (cv.end == "done" && result == "ok") || (cv.end == "panic" && strings.HasPrefix(result, "panic"))
 			if okEnd && nativeObs == cv.obs {
@@ -484,7 +484,7 @@ func cmdCheck(args []string) int {
 		if v.Kind == "budget" && to == 0 {
 			to = 10 * time.Second
 		}
-		result, out := replayNative(bin, h, v.Harness, v.Vector, v.Params, to)
+		result, out := replayNative(bin, h, v.Harness, nativeVector(v.Vector, v.Inputs), v.Params, to)
 		v.ReplayOut = result
 		for _, line := range strings.Split(out, "\n") {
 			if strings.HasPrefix(line, "VX-NOTE: ") {
